@@ -5,7 +5,9 @@ from tools import tours, tlaval
 RULE = ("V: every (certificate, pool) vector of CertTrust.tla's lattice (time sweep over all NotBefore/NotAfter pairs, "
         "groups x networks x unsafe networks x window crossed, all pairs of small network sets, IPv6/mixed, signature forms x "
         "pools x curves x isCA) is one TLC state with the trust rule's verdict for every blocklist row and every second "
-        "0..TMax; each cell is executed on the real VerifyCertificate and, for certificates accepted once, on "
+        "0..TMax; each cell is executed on the real VerifyCertificate (every third v2 certificate is issued with details that are "
+        "not the canonical encoding of their content - a trailing element this version does not know - and signed over exactly "
+        "those bytes: 'the signature verifies under the CA key' is about the bytes as issued) and, for certificates accepted once, on "
         "VerifyCachedCertificate; distinct = (vector, blocklist, time[, cached]). R: one replayed step per edge of TLC's "
         "graph of the cached-check machine. T: seeded random concrete cases (16-bit address universe, dozens of networks and "
         "groups) whose logged verdicts TLC validates against Accept")
@@ -107,6 +109,7 @@ def run(ctx):
                                                                            c.get('ver'), c.get('curve'), c.get('sig')),
                       'recorded verification #%s (full check accepted=%s, cached re-check=%s, ErrBlockListed=%s) is not what the '
                       'trust rule of CertTrust.tla gives' % (ln.get('n'), ln.get('full'), ln.get('cached'), ln.get('blocked')), fl)
+    ctx.require_actions('presented:v2-details-not-canonical-as-signed')
     ctx.require_actions('full:ok', 'full:exp', 'full:caexp', 'full:win', 'full:grp', 'full:net', 'full:unsafe', 'full:sig',
                         'full:noca', 'full:curve', 'full:bl!', 'cached:ok', 'cached:exp', 'cached:caexp', 'cached:bl!',
                         'FullCheck', 'CachedCheck', 'Blocklist', 'Unblock', 'ReplacePool', 'Tick',
